@@ -339,70 +339,65 @@ theorem objs_of_allImm (xs : List PV) (h : xs.all PV.isImm = true) : PV.objsL xs
     simp only [List.all_cons, Bool.and_eq_true] at h
     cases x <;> simp_all [PV.isImm, PV.objsL, PV.objs]
 
-def SettleOK (c : Ctx) (n : Nat) : Prop := ∀ bf need, Sat c need (settle n bf) PV.objs
-def BoxOK (c : Ctx) (n : Nat) : Prop :=
-  (∀ f need v, (∀ o ∈ v.objs, o ∈ need) → Sat c need (box n f v) (fun _ => [])) ∧
-  (∀ f need vs, (∀ o ∈ PV.objsL vs, o ∈ need) → Sat c need (boxL n f vs) (fun _ => []))
-def RequestOK (c : Ctx) (n : Nat) : Prop :=
-  ∀ bf h need args, (∀ o ∈ PV.objsL args, o ∈ need) → Sat c need (request n bf h args) PV.objs
+theorem objsL_eq_flatMap (xs : List PV) : PV.objsL xs = xs.flatMap PV.objs := by
+  induction xs with
+  | nil => rfl
+  | cons x xs ih => simp [PV.objsL, ih]
 
-theorem box_ok (c : Ctx) (n : Nat) (hS : SettleOK c n) : BoxOK c n := by
-  have key : ∀ f, (∀ need v, (∀ o ∈ v.objs, o ∈ need) → Sat c need (box n f v) (fun _ => [])) ∧
-      (∀ need vs, (∀ o ∈ PV.objsL vs, o ∈ need) → Sat c need (boxL n f vs) (fun _ => [])) := by
-    intro f
-    induction f with
-    | zero =>
-      have hb : ∀ need v, (∀ o ∈ v.objs, o ∈ need) → Sat c need (box n 0 v) (fun _ => []) := by
-        intro need v _; simp only [box]; exact Sat.throwE _
-      refine ⟨hb, ?_⟩
-      intro need vs
-      induction vs generalizing need with
-      | nil => intro _; simp only [boxL]; exact Sat.pure _ (by simp)
-      | cons x xs ihx =>
-        intro hN
-        simp only [boxL]
-        refine Sat.bind (hb need x (fun o ho => hN o (by simp [PV.objsL, ho]))) (fun b => ?_)
-        refine Sat.bind (ihx _ (fun o ho => by simp [PV.objsL] at hN ⊢; exact hN o (Or.inr ho))) (fun bs => ?_)
+theorem Sat.mapM' {α β : Type} {c : Ctx} {need : List Nat} (g : α → M β) (pre : α → List Nat) (post : β → List Nat)
+    (hg : ∀ x need', (∀ o ∈ pre x, o ∈ need') → Sat c need' (g x) post)
+    (xs : List α) (hxs : ∀ x ∈ xs, ∀ o ∈ pre x, o ∈ need) :
+    Sat c need (mapM' g xs) (fun bs => bs.flatMap post) := by
+  induction xs generalizing need with
+  | nil => simp only [Handlers.mapM']; exact Sat.pure _ (by simp)
+  | cons x xs ih =>
+    simp only [Handlers.mapM']
+    refine Sat.bind (hg x need (hxs x (by simp))) (fun b => ?_)
+    refine Sat.bind (ih (fun y hy o ho => List.mem_append.mpr (Or.inl (hxs y (by simp [hy]) o ho)))) (fun bs => ?_)
+    refine Sat.pure _ ?_
+    intro o ho
+    simp only [List.flatMap_cons, List.mem_append] at ho ⊢
+    rcases ho with h | h
+    · exact Or.inl (Or.inr h)
+    · exact Or.inr h
+
+theorem boxWith_sat {c : Ctx} {s : M PV} (hs : ∀ need, Sat c need s PV.objs) :
+    ∀ f need v, (∀ o ∈ v.objs, o ∈ need) → Sat c need (boxWith s f v) (fun _ => []) := by
+  intro f
+  induction f with
+  | zero => intro need v _; simp only [boxWith]; exact Sat.throwE _
+  | succ f ihf =>
+    intro need v hv
+    cases v with
+    | imm v => simp only [boxWith]; exact Sat.pure _ (by simp)
+    | proxy nm ci ii => simp only [boxWith]; exact Sat.pure _ (by simp)
+    | tup xs =>
+      simp only [boxWith]
+      refine Sat.bind (Sat.inGenerator (Sat.mapM' _ PV.objs (fun _ => []) (fun x need' hx => ihf need' x hx) xs ?_))
+        (fun bs => Sat.pure _ (by simp))
+      intro x hx o ho
+      refine hv o ?_
+      simp only [PV.objs, objsL_eq_flatMap, List.mem_flatMap]
+      exact ⟨x, hx, ho⟩
+    | obj o =>
+      simp only [boxWith]
+      refine Sat.bind_getSt (fun st0 => ?_)
+      refine Sat.ite (fun _ => Sat.throwX _) (fun _ => ?_)
+      refine Sat.bind (Sat.push _ rfl rfl (by
+        intro t ht; cases ht; simpa [Touch.needs, PV.objs, PV.objsL] using hv)) (fun _ => ?_)
+      refine Sat.bind (hs _) (fun k => ?_)
+      cases k with
+      | imm key =>
+        refine Sat.bind (Sat.addSlot key o (by simp [PV.objs] at hv; simp [hv])) (fun _ => ?_)
         exact Sat.pure _ (by simp)
-    | succ f ihf =>
-      have hb : ∀ need v, (∀ o ∈ v.objs, o ∈ need) → Sat c need (box n (f + 1) v) (fun _ => []) := by
-        intro need v hv
-        cases v with
-        | imm v => simp only [box]; exact Sat.pure _ (by simp)
-        | proxy nm ci ii => simp only [box]; exact Sat.pure _ (by simp)
-        | tup xs =>
-          simp only [box]
-          refine Sat.bind (Sat.inGenerator (ihf.2 need xs (by simpa [PV.objs] using hv))) (fun bs => ?_)
-          exact Sat.pure _ (by simp)
-        | obj o =>
-          simp only [box]
-          refine Sat.bind_getSt (fun st0 => ?_)
-          refine Sat.ite (fun _ => Sat.throwX _) (fun _ => ?_)
-          refine Sat.bind (Sat.push _ rfl rfl (by
-            intro t ht; cases ht; simpa [Touch.needs, PV.objs, PV.objsL] using hv)) (fun _ => ?_)
-          refine Sat.bind (hS f _) (fun k => ?_)
-          cases k with
-          | imm key =>
-            refine Sat.bind (Sat.addSlot key o (by simp [PV.objs] at hv; simp [hv])) (fun _ => ?_)
-            exact Sat.pure _ (by simp)
-          | _ => exact Sat.throwE _
-      refine ⟨hb, ?_⟩
-      intro need vs
-      induction vs generalizing need with
-      | nil => intro _; simp only [boxL]; exact Sat.pure _ (by simp)
-      | cons x xs ihx =>
-        intro hN
-        simp only [boxL]
-        refine Sat.bind (hb need x (fun o ho => hN o (by simp [PV.objsL, ho]))) (fun b => ?_)
-        refine Sat.bind (ihx _ (fun o ho => by simp [PV.objsL] at hN ⊢; exact hN o (Or.inr ho))) (fun bs => ?_)
-        exact Sat.pure _ (by simp)
-  exact ⟨fun f => (key f).1, fun f => (key f).2⟩
+      | _ => exact Sat.throwE _
 
-
-theorem request_ok (c : Ctx) (hA : AwaitOK c) (n : Nat) (hB : BoxOK c n) : RequestOK c n := by
-  intro bf h need args hN
-  simp only [request]
-  refine Sat.bind (hB.1 bf need (mkTuple args) (fun o ho => hN o (mkTuple_objs args o ho))) (fun boxed => ?_)
+theorem requestWith_sat {c : Ctx} (hA : AwaitOK c) {s : M PV} (hs : ∀ need, Sat c need s PV.objs)
+    (need : List Nat) (h : Nat) (args : List PV) (hN : ∀ o ∈ PV.objsL args, o ∈ need) :
+    Sat c need (requestWith s h args) PV.objs := by
+  unfold requestWith
+  refine Sat.bind_getCtx ?_
+  refine Sat.bind (boxWith_sat hs _ need (mkTuple args) (fun o ho => hN o (mkTuple_objs args o ho))) (fun boxed => ?_)
   refine Sat.bind_getSt (fun st => ?_)
   refine Sat.bind (Sat.modify _ (fun _ => rfl) (fun _ s hs => ⟨s, hs, rfl⟩) (fun _ p hp => hp)) (fun _ => ?_)
   refine Sat.bind (Sat.attempt (Sat.sendFrame _ rfl rfl (by intro t ht; cases ht))) (fun sent => ?_)
@@ -412,61 +407,55 @@ theorem request_ok (c : Ctx) (hA : AwaitOK c) (n : Nat) (hB : BoxOK c n) : Reque
     exact Sat.throwX x
   | ok a => exact Sat.awaitReply hA _
 
-theorem settle_succ (c : Ctx) (n : Nat) (hS : SettleOK c n) (hR : RequestOK c n) : SettleOK c (n + 1) := by
-  intro bf need st fut hI hN
-  simp only [settle]
-  cases hm : c.env st.clock with
-  | done a =>
-    cases a with
-    | ret v =>
-      have hI' := hI.push (.answer (.ret v)) rfl (by intro t ht; cases ht)
-      refine ⟨hI'.congr rfl rfl rfl, ⟨[.answer (.ret v)], rfl, rfl⟩, ?_⟩
-      intro a ha o ho
-      cases ha
-      show o ∈ known c.root (st.log ++ [Ev.answer (Ans.ret v)])
-      rw [known_append]; exact Or.inr (by simpa [Ev.gives, Ans.objs] using ho)
-    | raise x =>
-      have hI' := hI.push (.answer (.raise x)) rfl (by intro t ht; cases ht)
-      exact ⟨hI'.congr rfl rfl rfl, ⟨[.answer (.raise x)], rfl, rfl⟩, by intro a ha; cases ha⟩
-  | callback h args =>
-    have hI1 := (hI.push (.cbmove h args) rfl (by intro t ht; cases ht)).congr
-      (st' := { st with clock := st.clock + 1, log := st.log ++ [Ev.cbmove h args] }) rfl rfl rfl
-    have hE1 : Ext st { st with clock := st.clock + 1, log := st.log ++ [Ev.cbmove h args] } :=
-      ⟨[.cbmove h args], rfl, rfl⟩
-    have hN1 : ∀ o ∈ PV.objsL args, o ∈ known c.root
-        ({ st with clock := st.clock + 1, log := st.log ++ [Ev.cbmove h args] } : St).log := by
-      intro o ho
-      show o ∈ known c.root (st.log ++ [Ev.cbmove h args])
-      rw [known_append]; exact Or.inr (by simpa [Ev.gives] using ho)
-    obtain ⟨hI2, hE2, _⟩ := hR bf h (PV.objsL args) args (fun o ho => ho) _ fut hI1 hN1
-    obtain ⟨hI3, hE3, hQ3⟩ := hS bf need _ _ hI2 (fun o ho => known_mono (hE1.trans hE2) (hN o ho))
-    exact ⟨hI3, (hE1.trans hE2).trans hE3, hQ3⟩
-
-theorem core_sat (c : Ctx) (hA : AwaitOK c) : ∀ n, SettleOK c n ∧ BoxOK c n ∧ RequestOK c n := by
+theorem settle_sat {c : Ctx} (hA : AwaitOK c) : ∀ n need, Sat c need (settle n) PV.objs := by
   intro n
   induction n with
-  | zero =>
-    have hs : SettleOK c 0 := by intro bf need; simp only [settle]; exact Sat.throwE _
-    exact ⟨hs, box_ok c 0 hs, request_ok c hA 0 (box_ok c 0 hs)⟩
+  | zero => intro need; simp only [settle]; exact Sat.throwE _
   | succ n ih =>
-    have hs := settle_succ c n ih.1 ih.2.2
-    exact ⟨hs, box_ok c _ hs, request_ok c hA _ (box_ok c _ hs)⟩
+    intro need st fut hI hN
+    simp only [settle]
+    cases hm : c.env st.clock with
+    | done a =>
+      cases a with
+      | ret v =>
+        have hI' := hI.push (.answer (.ret v)) rfl (by intro t ht; cases ht)
+        refine ⟨hI'.congr rfl rfl rfl, ⟨[.answer (.ret v)], rfl, rfl⟩, ?_⟩
+        intro a ha o ho
+        cases ha
+        show o ∈ known c.root (st.log ++ [Ev.answer (Ans.ret v)])
+        rw [known_append]; exact Or.inr (by simpa [Ev.gives, Ans.objs] using ho)
+      | raise x =>
+        have hI' := hI.push (.answer (.raise x)) rfl (by intro t ht; cases ht)
+        exact ⟨hI'.congr rfl rfl rfl, ⟨[.answer (.raise x)], rfl, rfl⟩, by intro a ha; cases ha⟩
+    | callback h args =>
+      have hI1 := (hI.push (.cbmove h args) rfl (by intro t ht; cases ht)).congr
+        (st' := { st with clock := st.clock + 1, log := st.log ++ [Ev.cbmove h args] }) rfl rfl rfl
+      have hE1 : Ext st { st with clock := st.clock + 1, log := st.log ++ [Ev.cbmove h args] } :=
+        ⟨[.cbmove h args], rfl, rfl⟩
+      have hN1 : ∀ o ∈ PV.objsL args, o ∈ known c.root
+          ({ st with clock := st.clock + 1, log := st.log ++ [Ev.cbmove h args] } : St).log := by
+        intro o ho
+        show o ∈ known c.root (st.log ++ [Ev.cbmove h args])
+        rw [known_append]; exact Or.inr (by simpa [Ev.gives] using ho)
+      obtain ⟨hI2, hE2, _⟩ := requestWith_sat hA ih (PV.objsL args) h args (fun o ho => ho) _ fut hI1 hN1
+      obtain ⟨hI3, hE3, hQ3⟩ := ih need _ _ hI2 (fun o ho => known_mono (hE1.trans hE2) (hN o ho))
+      exact ⟨hI3, (hE1.trans hE2).trans hE3, hQ3⟩
 
 theorem Sat.prim {c : Ctx} (hA : AwaitOK c) {need : List Nat} (t : Touch) (hg : t.good c.cfg = true)
     (hn : ∀ o ∈ t.needs, o ∈ need) : Sat c need (prim t) PV.objs := by
   unfold Handlers.prim
   refine Sat.bind (Sat.push _ hg rfl (by intro t' ht; cases ht; exact hn)) (fun _ => ?_)
-  exact Sat.bind_getCtx ((core_sat c hA _).1 _ _)
+  exact Sat.bind_getCtx (settle_sat hA _ _)
 
 theorem Sat.boxTop {c : Ctx} (hA : AwaitOK c) {need : List Nat} (v : PV) (hn : ∀ o ∈ v.objs, o ∈ need) :
     Sat c need (boxTop v) (fun _ => []) := by
   unfold Handlers.boxTop
-  exact Sat.bind_getCtx ((core_sat c hA _).2.1.1 _ _ v hn)
+  exact Sat.bind_getCtx (boxWith_sat (settle_sat hA _) _ _ v hn)
 
 theorem Sat.requestTop {c : Ctx} (hA : AwaitOK c) {need : List Nat} (h : Nat) (args : List PV)
     (hn : ∀ o ∈ PV.objsL args, o ∈ need) : Sat c need (requestTop h args) PV.objs := by
   unfold Handlers.requestTop
-  exact Sat.bind_getCtx ((core_sat c hA _).2.2 _ _ _ args hn)
+  exact Sat.bind_getCtx (requestWith_sat hA (settle_sat hA _) _ _ args hn)
 
 /-- membership side goals of the rules: `o ∈ <objects needed> → o ∈ <objects known to be available>` -/
 macro "mem_tac" : tactic =>
@@ -493,59 +482,41 @@ theorem Sat.netrefFactory {c : Ctx} (hA : AwaitOK c) {need : List Nat} (idp : Id
   refine Sat.ite (fun _ => ?_) (fun _ => Sat.pure _ (by simp))
   exact Sat.modify _ (fun _ => rfl) (fun _ s hs => ⟨s, hs, rfl⟩) (fun _ p hp => hp)
 
-theorem unbox_sat {c : Ctx} (hA : AwaitOK c) : ∀ f,
-    (∀ need pkg, Sat c need (unbox f pkg) PV.objs) ∧ (∀ need pkgs, Sat c need (unboxL f pkgs) PV.objsL) := by
+theorem unbox_sat {c : Ctx} (hA : AwaitOK c) : ∀ f need pkg, Sat c need (unbox f pkg) PV.objs := by
   intro f
   induction f with
-  | zero =>
-    have h0 : ∀ need pkg, Sat c need (unbox 0 pkg) PV.objs := by
-      intro need pkg; simp only [unbox]; exact Sat.throwE _
-    refine ⟨h0, ?_⟩
-    intro need pkgs
-    induction pkgs generalizing need with
-    | nil => simp only [unboxL]; exact Sat.pure _ (by simp [PV.objsL])
-    | cons x xs ih =>
-      simp only [unboxL]
-      refine Sat.bind (h0 need x) (fun a => ?_)
-      refine Sat.bind (ih _) (fun as => ?_)
-      exact Sat.pure _ (by mem_tac)
+  | zero => intro need pkg; simp only [unbox]; exact Sat.throwE _
   | succ f ihf =>
-    have h1 : ∀ need pkg, Sat c need (unbox (f + 1) pkg) PV.objs := by
-      intro need pkg
-      simp only [unbox]
-      refine Sat.bind (Sat.liftE _ (Q := fun _ => []) (by simp)) (fun lv => ?_)
-      refine Sat.ite (fun _ => Sat.pure _ (by simp [PV.objs])) (fun _ => ?_)
-      refine Sat.ite (fun _ => ?_) (fun _ => ?_)
-      · refine Sat.bind (Sat.liftE _ (Q := fun _ => []) (by simp)) (fun items => ?_)
-        refine Sat.bind (Sat.inGenerator (ihf.2 _ items)) (fun xs => ?_)
-        exact Sat.pure _ (by intro o ho; have := mkTuple_objs xs o ho; simp [this])
-      refine Sat.ite (fun _ => ?_) (fun _ => ?_)
-      · refine Sat.bind (Sat.tableGet _) (fun o => ?_)
-        exact Sat.pure _ (by mem_tac)
-      refine Sat.ite (fun _ => ?_) (fun _ => Sat.throwE _)
-      refine Sat.bind (Sat.liftE _ (Q := fun _ => []) (by simp)) (fun v0 => ?_)
-      refine Sat.bind (Sat.liftE _ (Q := fun _ => []) (by simp)) (fun v1 => ?_)
-      refine Sat.bind (Sat.liftE _ (Q := fun _ => []) (by simp)) (fun v2 => ?_)
-      refine Sat.bind_getCtx ?_
-      refine Sat.bind_getSt (fun st => ?_)
-      refine Sat.ite (fun _ => Sat.pure _ (by simp [PV.objs])) (fun _ => ?_)
-      refine Sat.bind (Sat.netrefFactory hA _) (fun _ => ?_)
-      refine Sat.bind (Sat.modify _ (fun _ => rfl) (fun _ s hs => ⟨s, hs, rfl⟩) (fun _ p hp => hp)) (fun _ => ?_)
-      exact Sat.pure _ (by simp [PV.objs])
-    refine ⟨h1, ?_⟩
-    intro need pkgs
-    induction pkgs generalizing need with
-    | nil => simp only [unboxL]; exact Sat.pure _ (by simp [PV.objsL])
-    | cons x xs ih =>
-      simp only [unboxL]
-      refine Sat.bind (h1 need x) (fun a => ?_)
-      refine Sat.bind (ih _) (fun as => ?_)
+    intro need pkg
+    simp only [unbox]
+    refine Sat.bind (Sat.liftE _ (Q := fun _ => []) (by simp)) (fun lv => ?_)
+    refine Sat.ite (fun _ => Sat.pure _ (by simp [PV.objs])) (fun _ => ?_)
+    refine Sat.ite (fun _ => ?_) (fun _ => ?_)
+    · refine Sat.bind (Sat.liftE _ (Q := fun _ => []) (by simp)) (fun items => ?_)
+      refine Sat.bind (Sat.inGenerator (Sat.mapM' _ (fun _ => []) PV.objs (fun x need' _ => ihf need' x) items
+        (by intro x _ o ho; cases ho))) (fun xs => ?_)
+      refine Sat.pure _ ?_
+      intro o ho
+      have := mkTuple_objs xs o ho
+      rw [objsL_eq_flatMap] at this
+      simp [this]
+    refine Sat.ite (fun _ => ?_) (fun _ => ?_)
+    · refine Sat.bind (Sat.tableGet _) (fun o => ?_)
       exact Sat.pure _ (by mem_tac)
-
+    refine Sat.ite (fun _ => ?_) (fun _ => Sat.throwE _)
+    refine Sat.bind (Sat.liftE _ (Q := fun _ => []) (by simp)) (fun v0 => ?_)
+    refine Sat.bind (Sat.liftE _ (Q := fun _ => []) (by simp)) (fun v1 => ?_)
+    refine Sat.bind (Sat.liftE _ (Q := fun _ => []) (by simp)) (fun v2 => ?_)
+    refine Sat.bind_getCtx ?_
+    refine Sat.bind_getSt (fun st => ?_)
+    refine Sat.ite (fun _ => Sat.pure _ (by simp [PV.objs])) (fun _ => ?_)
+    refine Sat.bind (Sat.netrefFactory hA _) (fun _ => ?_)
+    refine Sat.bind (Sat.modify _ (fun _ => rfl) (fun _ s hs => ⟨s, hs, rfl⟩) (fun _ p hp => hp)) (fun _ => ?_)
+    exact Sat.pure _ (by simp [PV.objs])
 
 theorem Sat.unboxTop {c : Ctx} (hA : AwaitOK c) {need : List Nat} (pkg : Val) : Sat c need (unboxTop pkg) PV.objs := by
   unfold Handlers.unboxTop
-  exact Sat.bind_getCtx ((unbox_sat hA _).1 _ _)
+  exact Sat.bind_getCtx (unbox_sat hA _ _ _)
 
 theorem Sat.probe {c : Ctx} (hA : AwaitOK c) {need : List Nat} (obj : PV) (n : PyStr)
     (hg : plainAllowed c.cfg n = true) (hn : ∀ o ∈ obj.objs, o ∈ need) : Sat c need (probe obj n) (fun _ => []) := by
@@ -1398,6 +1369,6 @@ theorem justifiedFrom_split (kn : List Nat) (pre post : List Ev) (t : Touch)
     · exact Or.inr (Or.inr h1)
 
 theorem pyEqNat_int (a : Int) (b : Nat) : pyEqNat (.int a) b = (a == (b : Int)) := by
-  simp [pyEqNat, pyEq, numVal, Num.eq]
+  simp [pyEqNat, pyEq, leafEq, numVal, Num.eq]
 
 end Rpyc.Handlers
